@@ -236,6 +236,37 @@ def rand_info(rng, allow_empty=False):
     }
 
 
+TWIN_NAMES = ["__init__.py", "index.js", "mod.rs", ".gitkeep", "README.md", "logo.bin", "py.typed", "Makefile", "no ext"]
+TWIN_DIRS = ["", "src", "src/alpha", "src/beta", "tests", "pkg/a b", "vendor/x", "vendor/x/src", "日本"]
+
+
+def gen_twins(rng, taken):
+    """One or two groups of 2-4 covered files that share their BASE NAME and their CONTENT byte for byte and differ only in the
+    directory (the header-only __init__.py of every package, identical stubs, a vendored copy), in some groups also the same
+    content under different base names: what tells such files apart is the project-relative name alone."""
+    out = []
+    for g in range(rng.choice([1, 1, 2])):
+        base = rng.choice(TWIN_NAMES)
+        kind = "bin" if base.endswith(".bin") else rng.choice(["text", "text", "text", "tiny", "big"])
+        proto = {"kind": kind, "size": rng.choice(SIZES), "seed": rng.randint(0, 10 ** 6), "header": None, "license": None, "toml": None}
+        if kind in ("text", "big"):
+            proto["header"] = rand_info(rng) if rng.random() < 0.8 else None
+            proto["body"] = rng.choice(["", "", "shared body\n"]) if proto["header"] else "shared body %d\n" % g
+        elif rng.random() < 0.5:
+            proto["license"] = rand_info(rng)
+        dirs = rng.sample(TWIN_DIRS, rng.randint(2, 4))
+        names = [base] * len(dirs)
+        if rng.random() < 0.25:
+            names[-1] = "other-" + base   # same content, same directory depth, another base name
+        for d, n in zip(dirs, names):
+            path = (d + "/" if d else "") + n
+            if path in taken:
+                continue
+            taken.add(path)
+            out.append(dict(proto, path=path))
+    return out
+
+
 def gen_tree(rng, nfiles=None):
     paths = rng.sample(PATHS, nfiles or rng.randint(1, 8))
     files = []
@@ -255,6 +286,8 @@ def gen_tree(rng, nfiles=None):
                 t["prec"] = rng.choice(["closest", "aggregate", "override", None])
                 f["toml"] = t
         files.append(f)
+    if rng.random() < 0.35:
+        files.extend(gen_twins(rng, {f["path"] for f in files}))
     lics = []
     used = set()
     for f in files:
@@ -292,7 +325,7 @@ def content_of(f):
         return (b"\x00\x01" + body + b"\x00" * n)[:max(n, 2)]
     head = "".join(l + "\n" for l in header_lines(f["header"])) if f["header"] else ""
     if kind == "text":
-        return (head + "body of %s\n" % f["path"]).encode("utf-8")
+        return (head + f.get("body", "body of %s\n" % f["path"])).encode("utf-8")
     filler = "".join("line %d %s\n" % (i, "x" * r.randint(0, 60)) for i in range(2200))
     return (head + filler).encode("utf-8")
 
@@ -421,7 +454,7 @@ def canon_doc(out):
 
 class TreeStream(Stream):
     name = "tree"
-    rule = ("generated project trees (1-8 files from a pool with spaces, quotes, non-ASCII, nested directories; content "
+    rule = ("generated project trees (1-8 files from a pool with spaces, quotes, non-ASCII, nested directories, a third of the trees with one or two groups of 2-4 files that share base name AND content in different directories -- header-only __init__.py, identical stubs and binaries --; content "
             "empty / 1 byte / text / > 64 KiB / binary at sizes around the 8 KiB read chunk; 0-3 expressions with WITH/AND/OR "
             "nesting per source; sources header, .license, REUSE.toml closest/aggregate/override; LicenseRef texts with blank "
             "lines, CRLF, fake tags) x every option set of `reuse spdx` (9 sets, one also through --output inside or outside the "
@@ -684,7 +717,8 @@ class TreeStream(Stream):
                 if not tt_equiv(a, b):
                     return "concluded-not-equivalent: %r: %r vs AND of %r" % (path, conc, lint[path]["e"])
         if len(set(ids)) != len(ids):
-            return "spdxid-not-unique: %r" % ids
+            dup = next(i for i in ids if ids.count(i) > 1)
+            return "spdxid-not-unique: %s is the SPDXID of %d File sections: %r" % (dup, ids.count(dup), [n for n, i in zip(names, ids) if i == dup])
         rels = [v for t, v, x in head if t == "Relationship"]
         if sorted(rels) != sorted("SPDXRef-DOCUMENT DESCRIBES " + i for i in ids):
             return "describes: relationships %r do not match the ids one to one" % rels
